@@ -285,6 +285,21 @@ func genDual(r *rand.Rand) DBody {
 		}
 		b.Blocks = append(b.Blocks, DBlock{Type: "output", Labels: []string{fmt.Sprintf("o%d", i)}, Body: ob})
 	}
+	for i, n := 0, r.Intn(2); i < n; i++ {
+		backend := pick(r, []string{"s3", "gcs", ""})
+		dbody := DBody{Attrs: []DAttr{{"provider", DExpr{Kind: "str", Str: "p"}}}}
+		if backend != "" {
+			dbody.Attrs = append(dbody.Attrs, DAttr{"backend", DExpr{Kind: "str", Str: backend}})
+		}
+		dbody.Attrs = append(dbody.Attrs, DAttr{"workspace", g.strOrRef()})
+		if backend == "s3" {
+			dbody.Attrs = append(dbody.Attrs, DAttr{"bucket", DExpr{Kind: "str", Str: "b"}})
+		}
+		if r.Intn(2) == 0 {
+			dbody.Blocks = append(dbody.Blocks, DBlock{Type: "defaults", Body: DBody{Attrs: []DAttr{{"region", DExpr{Kind: "str", Str: "r"}}}}})
+		}
+		b.Blocks = append(b.Blocks, DBlock{Type: "data", Labels: []string{"remote_state", fmt.Sprintf("d%d", i)}, Body: dbody})
+	}
 	for i, n := 0, r.Intn(3); i < n; i++ {
 		kind := pick(r, []string{"role", "role", "plain"})
 		cb := DBody{Attrs: []DAttr{{"extra", g.strOrRef()}}}
